@@ -56,4 +56,125 @@ PROPS = {
             "Kani models the dev profile (overflow checks on); release-profile wrap-around is observed by the native replay",
         ],
     ),
+    "C08": dict(
+        crate="net",
+        title="RESP encoding and decoding round-trip, independent of stream chunking",
+        harnesses=[
+            H("c08_null", timeout=600, rules=REC_RULES),
+            H("c08_simple_0", timeout=900, rules=REC_RULES),
+            H("c08_simple_2", timeout=900, rules=REC_RULES),
+            H("c08_error_3", timeout=900, rules=REC_RULES),
+            H("c08_bulk_0", timeout=900, rules=REC_RULES),
+            H("c08_bulk_2", timeout=900, rules=REC_RULES),
+            H("c08_bulk_4", timeout=900, rules=REC_RULES),
+            H("c08_integer_1", timeout=900, rules=REC_RULES),
+            H("c08_integer_4", timeout=900, rules=REC_RULES),
+            H("c08_integer_limits", timeout=1200, rules=REC_RULES, covers=["i64::MIN round-trips", "i64::MAX round-trips"]),
+            H("c08_array_bulk2", timeout=1500, rules=REC_RULES),
+            H("c08_array_mixed", timeout=1500, rules=REC_RULES),
+            H("c08_integer_7", tier="thorough", timeout=1800, rules=REC_RULES),
+        ],
+        bounds={
+            "frames": "SimpleString/Error of 0,2,3 ASCII bytes without CR/LF; BulkString of 0,2,4 arbitrary bytes; Null; Integer as canonical digit string of 1,4 (thorough 7) symbolic digits with symbolic sign, plus sign x last digit around both i64 limits; arrays [bulk(1),bulk(2)], [int,null,simple], []",
+            "stream": "encoding followed by 3 symbolic bytes; symbolic cut point over every strict prefix",
+            "outside": "the encoder itself (Connection::write_frame: async/tokio, validated natively against the reference encoder, not solver-decided); Connection::read_frame's loop and its EOF distinction; non-ASCII simple strings; longer payloads; nested arrays (write_frame refuses them)",
+        },
+        assumptions=NET_STUBS + [
+            "bytes::{Bytes,Buf} are the inline-array model of models/bytes",
+            "the reference encoder of the harness equals Connection::write_frame (checked natively by replay/net enc_diff on the repository's write test cases and boundary integers; trusted base, not solver-decided)",
+            "recursion of Frame::check/parse unwound 3 times (unwinding assertion proves deeper recursion unreachable on these inputs)",
+        ],
+    ),
+    "C06": dict(
+        crate="net",
+        title="Over the network SET/GET/DEL answer exactly as the map model, in order (REDUCED: request bytes -> command only)",
+        harnesses=[
+            H("c06_decode_get", timeout=1500, rules=REC_RULES),
+            H("c06_decode_set", timeout=1800, rules=REC_RULES),
+            H("c06_decode_del2", timeout=1800, rules=REC_RULES),
+            H("c06_gate", timeout=1500, covers=["a SET passed the gate", "a DEL passed the gate", "a non-UTF-8 key was refused"]),
+        ],
+        bounds={
+            "requests": "SET k v (k 2 ASCII bytes, v 3 arbitrary bytes incl. CR/LF/NUL); GET k; DEL k1 k2; each followed by 3 symbolic bytes, every strict prefix cut",
+            "gate": "array of <= 3 elements (bulk strings of <= 3 arbitrary bytes or a non-bulk element) or a non-array frame",
+            "outside": "one-reply-per-request ordering, the reply computed from the store (DEL's count), flush behaviour, pipelining depth: all inside async code over tokio (Connection, Handler::run, Set/Get/Del::apply) which cannot be encoded",
+        },
+        assumptions=NET_STUBS + ["bytes model", "keys restricted to ASCII in the decode harnesses (arbitrary bytes in the gate harness)"],
+    ),
 }
+
+STORE_ASSUME = [
+    "environment models of /verif/models (DESIGN.md 2.3): model file system (one call = one atomic step; POSIX append/create_new/unlink semantics), memmap2 (length snapshot), DashMap/LruCache/Mutex/ArrayQueue/AtomicCell (sequential), chrono (harness-controlled), tracing (no effects), bytes (inline arrays)",
+    "std::io is the shim's transcription (Error, Read/Write/Seek, BufWriter/BufReader with capacity 8 instead of 8192, io::copy with an 8-byte buffer); std::path / ffi::OsStr / collections::BTreeSet are the shim's by-value models (DESIGN.md 2.3)",
+    "bincode is the compact model codec (decode(encode(e)) == e, length a function of field lengths, truncated input -> UnexpectedEof)",
+    "utils::datafile_name / hintfile_name stubbed by a digit-arithmetic name builder; core::slice::memchr::memchr stubbed by a naive loop",
+    "Writer/Reader/Context are built with struct literals exactly as Bitcask::open lines 155-187 do (no thread, tokio runtime or broadcast channel)",
+    "keys: pool of 2 concrete 1-byte keys; values: 1 symbolic byte; timestamps concrete 0; file ids < 8; files <= 32 bytes",
+]
+
+SHAPES_NOTE = "operation shapes are concrete and enumerated (DESIGN.md section 9 (b)): S1 tombstone-on-disk + rollover on every write + reopen; S2 overwrite/delete/absent-delete/merge of the active file/write/reopen via hint; S3 older live file + newer tombstone-only file, merge selected by fragmentation 0.4, reopen; S4 merge output with hint on disk + older file, merge rolling over into several outputs, reopen; S5 selection by dead bytes, two merges, reopen. Symbolic within a shape: every value byte"
+
+
+def _shapes(prefix, which, tier_of=lambda i: "quick", timeout=1500, covers=None):
+    covers = covers or {}
+    return [H("%s_shape_%d" % (prefix, i), tier=tier_of(i), timeout=timeout, rules=STORE_RULES, covers=covers.get(i, [])) for i in which]
+
+
+PROPS.update({
+    "C01": dict(crate="store", title="The store behaves as a key-value map for every operation sequence",
+                harnesses=_shapes("c01", [1, 2, 3, 4, 5], covers={1: ["three rollovers"], 2: ["the merge wrote a hint entry"]}),
+                bounds={"shapes": SHAPES_NOTE, "outside": "longer histories, more keys, longer keys/values, entries larger than the write buffer, real DashMap/LRU/mmap implementations, real bincode layout"},
+                assumptions=STORE_ASSUME),
+    "C02": dict(crate="store", title="Closing and reopening a store preserves exactly its contents, deletions included",
+                harnesses=[H("c01_shape_1", timeout=1500, rules=STORE_RULES, covers=["three rollovers"]), H("c01_shape_2", timeout=1500, rules=STORE_RULES),
+                           H("c01_shape_5", timeout=1500, rules=STORE_RULES), H("c12_shape_4", timeout=1500, rules=STORE_RULES)],
+                bounds={"shapes": SHAPES_NOTE + "; every shape ends with a reopen through the real rebuild_storage (scan path and hint path) and re-reads both keys", "outside": "two-digit file ids and foreign directory entries (name parsing is executed on single-digit ids only)"},
+                assumptions=STORE_ASSUME),
+    "C05": dict(crate="store", title="Compaction never changes what any key reads, now or after a restart",
+                harnesses=_shapes("c01", [2, 3, 4, 5], covers={2: ["the merge wrote a hint entry"]}),
+                bounds={"shapes": SHAPES_NOTE + "; merges selected by: everything (S2, S4), fragmentation > 0.4 (S3), dead bytes > 0 (S5), followed by reads and by a reopen", "outside": "thresholds are concrete per shape (a symbolic threshold makes the selected set symbolic and the run intractable - measured)"},
+                assumptions=STORE_ASSUME),
+    "C12": dict(crate="store", title="Hint files are only an accelerator: recovery with or without them agrees",
+                harnesses=[H("c12_shape_2", timeout=1500, rules=STORE_RULES, covers=["a non-empty hint file existed"]),
+                           H("c12_shape_4", timeout=1500, rules=STORE_RULES, covers=["a non-empty hint file existed"]),
+                           H("c12_shape_5", timeout=1500, rules=STORE_RULES, covers=["a non-empty hint file existed"])],
+                bounds={"shapes": SHAPES_NOTE + "; after the shape the index is rebuilt twice by the real rebuild_storage, as is and with every *.hint unlinked, and both pool keys are resolved through both", "outside": "as C01"},
+                assumptions=STORE_ASSUME),
+    "C13": dict(crate="store", title="Compaction actually reclaims space and never grows the store (REDUCED: a merge never increases the total data size)",
+                harnesses=_shapes("c14", [2, 3, 4, 5]),
+                bounds={"shapes": SHAPES_NOTE + "; total length of the linked *.data inodes compared before/after every real merge", "outside": "the 'exactly as large as a fresh store' and idempotence clauses are not decided"},
+                assumptions=STORE_ASSUME),
+    "C14": dict(crate="store", title="Data files are append-only and immutable, with ids that only grow",
+                harnesses=_shapes("c14", [1, 2, 3, 4, 5]) + [H("c03_crash_b", timeout=1800, rules=STORE_RULES)],
+                bounds={"shapes": SHAPES_NOTE + "; the monitor inside the model file system is asserted after every step: exclusive create + append by the creator only, no rename/set_len/truncate/open-for-write, ids per kind strictly above every earlier id, no data file beyond max_file_size by more than one entry", "outside": "bytes-never-change is enforced by construction of the model (appends only)"},
+                assumptions=STORE_ASSUME),
+    "C19": dict(crate="store", title="Per-file live/dead accounting always matches the files' real contents",
+                harnesses=_shapes("c19", [1, 2, 3, 4, 5]),
+                bounds={"shapes": SHAPES_NOTE + "; after every step the real LogStatistics of every file are compared with ground truth computed by the harness from the file bytes and the real index; counter arithmetic is overflow-checked by Kani", "outside": "as C01"},
+                assumptions=STORE_ASSUME),
+    "C03": dict(crate="store", title="A process crash at any instant loses no acknowledged write and corrupts nothing",
+                harnesses=[H("c03_crash_a", timeout=2400, rules=STORE_RULES, covers=["the kill fell on an unlink of the merge", "the kill fell on a hint-file write"]),
+                           H("c03_crash_b", timeout=2400, rules=STORE_RULES, covers=["the kill fell on the creation of a new active file"]),
+                           H("c03_crash_c", timeout=2400, rules=STORE_RULES)],
+                bounds={"shapes": "A: two values on disk; open, del a, merge of everything, put b. B: empty directory, rollover on every write; put a, put b, del a. C: two values on disk, merge rolling over into several outputs. SYMBOLIC: the kill point over EVERY file-system call of the run (initial recovery included), every value byte. After the run the directory as of the kill is installed and the real rebuild_storage is run on it", "outside": "a second kill during the recovery after the first; longer workloads"},
+                assumptions=STORE_ASSUME + ["process-kill failure model: the page cache survives, the directory is exactly the effect of the prefix of calls"]),
+    "C09": dict(crate="store", title="With sync=always an acknowledged write survives power loss, merges included",
+                harnesses=[H("c09_power_a", timeout=2400, rules=STORE_RULES), H("c09_power_b", timeout=2400, rules=STORE_RULES), H("c09_power_c", timeout=2400, rules=STORE_RULES)],
+                bounds={"shapes": "as C03 with sync=always; additionally SYMBOLIC per file: the surviving length, anywhere between the length at its last completed fsync and its written length; creations and removals issued persist", "outside": "directory-entry durability (the property's failure model makes creations/removals persistent)"},
+                assumptions=STORE_ASSUME),
+    "C20": dict(crate="store", title="A failed disk operation is reported and leaves the store consistent",
+                harnesses=[H("c20_fault_a", timeout=2400, rules=STORE_RULES, covers=["a file creation failed", "a write failed"]),
+                           H("c20_fault_b", timeout=2400, rules=STORE_RULES, covers=["an unlink of the merge failed"]),
+                           H("c20_fault_a_sync", tier="thorough", timeout=2400, rules=STORE_RULES)],
+                bounds={"shapes": "A: rollover on every write; put a, put b, del a, put a. B: values on disk; del a, merge of everything, put b. SYMBOLIC: the failing call over every file-system call after open (create, write, fsync, unlink, stat, open, mmap, read), the failure mode (error without effect / short write of a symbolic non-empty strict prefix followed by an error), every value byte. Followed by a restart", "outside": "faults during the initial recovery; more than one fault; entries larger than the write buffer"},
+                assumptions=STORE_ASSUME),
+    "C17": dict(crate="store", title="A closed store rejects all use (REDUCED: closed-handle clause only)",
+                harnesses=[H("c17_closed", timeout=1500, rules=STORE_RULES)],
+                bounds={"scope": "after Handle::close (what Drop for Bitcask calls) a SYMBOLIC choice among put/delete/get/merge/sync and the three KeyValueStorage methods returns Error::Closed and issues no file-system call; reopening continues with id max+1 and unchanged contents", "outside": "prompt exit of the background thread, thread/descriptor accumulation, wake-up from a long timer: tokio runtime, broadcast channel and OS threads cannot be encoded"},
+                assumptions=STORE_ASSUME),
+    "C18": dict(crate="store", title="Background merge and sync follow the configured policy (REDUCED: decision predicates only)",
+                harnesses=[H("c18_can_merge", timeout=1500, covers=["a merge is due inside the window", "no trigger exceeded under policy always"]),
+                           H("c18_selection", timeout=1500, covers=["an older file is merged while the newest is not"])],
+                bounds={"scope": "Context::can_merge over <= 2 files with SYMBOLIC counters (<= 2^40), symbolic triggers in [0,1] x u64, symbolic policy and clock hour; Context::fileids_to_merge over 3 files with symbolic counters, lengths and thresholds", "outside": "that a merge/sync actually happens within interval +- jitter: merge_on_interval / sync_on_interval are async code over tokio timers and rand"},
+                assumptions=STORE_ASSUME),
+})
